@@ -75,6 +75,7 @@ func (e *Enc) execCall(fr *Frame, c *ssa.CallCommon, instr ssa.Instruction, cur 
 			}
 		}
 		e.mods.funcArgMods(fr.fn, c, ms)
+		e.callSiteAsserts(fr, "dyn:"+name, args, cur, pos)
 		e.countCall(cur, "dyn:"+name, args)
 		before := cur.st.clone()
 		e.havocMods(fr, cur.st, ms, false)
